@@ -245,30 +245,40 @@ def run(ck):
 def whole_structure_case(ck, sg, st, SymmetryConstraints, ExpandAsymmetricUnit):
     k = min(len(st), ck.rng.choice([1, 2, 3]))
     chosen = ck.rng.sample(range(len(st)), k)
-    corepos, coreU = [], []
+    coreU = []
     for c in chosen:
-        x0 = [strata.frac(p) for p in st[c]["xyz"]]
-        corepos.append(numpy.array([float(v) for v in x0]))
         v = [ck.rng.randrange(-90, 91) / 1000.0 for _ in range(6)]
-        coreU.append(numpy.array([[v[0] + 0.1, v[3], v[4]], [v[3], v[1] + 0.1, v[5]], [v[4], v[5], v[2] + 0.1]]))
-    data = {"corepos": [p.tolist() for p in corepos], "coreUijs": [u.tolist() for u in coreU]}
+        coreU.append([[v[0] + 0.1, v[3], v[4]], [v[3], v[1] + 0.1, v[5]], [v[4], v[5], v[2] + 0.1]])
+    data = {"sites": [[str(strata.frac(p)) for p in st[c]["xyz"]] for c in chosen], "coreUijs": coreU,
+            "shuffle_seed": ck.rng.randrange(10 ** 9) if ck.rng.random() < 0.5 else None}
+    prob = whole_eval(sg, data, SymmetryConstraints, ExpandAsymmetricUnit)
+    return (prob, data) if prob else None
+
+
+def whole_eval(sg, data, SymmetryConstraints, ExpandAsymmetricUnit):
+    import random
+
+    sites = [[Fraction(v) for v in s_] for s_ in data["sites"]]
+    corepos = [numpy.array([float(v) for v in x0]) for x0 in sites]
+    coreU = [numpy.array(u) for u in data["coreUijs"]]
     eau = ExpandAsymmetricUnit(sg, corepos, coreU)
     pos, Us, owner = [], [], []
     for i, (ps, us) in enumerate(zip(eau.expandedpos, eau.expandedUijs)):
-        x0 = [strata.frac(p) for p in st[chosen[i]]["xyz"]]
+        x0 = sites[i]
         opos, ocls = oracle_classes(sg, x0, (Fraction(0),) * 3)
         if len(ps) != len(opos) or eau.multiplicity[i] != len(opos):
-            return "ExpandAsymmetricUnit multiplicity %r, exact %d" % (eau.multiplicity[i], len(opos)), data
+            return "ExpandAsymmetricUnit multiplicity %r, exact %d" % (eau.multiplicity[i], len(opos))
         for j, (p, u) in enumerate(zip(ps, us)):
             R, _ = sc.exact_op(sg.symop_list[ocls[j][0]])
             U0 = [[Fraction(float(eau.expandedUijs[i][0][a][b])).limit_denominator(10 ** 12) for b in range(3)] for a in range(3)]
             if not close(sc.rotT(R, U0), u, 1e-8):
-                return "expandedUijs[%d][%d] is not the rotated generator tensor" % (i, j), data
+                return "expandedUijs[%d][%d] is not the rotated generator tensor" % (i, j)
             pos.append(p)
             Us.append(u)
             owner.append(i)
     order = list(range(len(pos)))
-    ck.rng.shuffle(order)
+    if data.get("shuffle_seed") is not None:
+        random.Random(data["shuffle_seed"]).shuffle(order)  # otherwise grouped by orbit: later generators get large indices (U1112, ...)
     P = [list(map(float, pos[i])) for i in order]
     UU = [numpy.array(Us[i]) for i in order]
     scs = SymmetryConstraints(sg, P, UU)
@@ -279,11 +289,34 @@ def whole_structure_case(ck, sg, st, SymmetryConstraints, ExpandAsymmetricUnit):
             try:
                 val = sc.eval_linear(sc.parse_linear(fm[s_]), vals)
             except (ValueError, KeyError) as e:
-                return "Ueqns[%d][%s] = %r cannot be evaluated with Upars (%s)" % (i, s_, fm[s_], e), data
+                return "Ueqns[%d][%s] = %r cannot be evaluated with Upars (%s)" % (i, s_, fm[s_], e)
             if abs(float(val) - float(scs.Uijs[i][a][b])) > 1e-5:
-                return "Ueqns[%d][%s] = %r at Upars gives %r, Uijs has %r" % (i, s_, fm[s_], float(val), float(scs.Uijs[i][a][b])), data
+                return "Ueqns[%d][%s] = %r at Upars gives %r, Uijs has %r" % (i, s_, fm[s_], float(val), float(scs.Uijs[i][a][b]))
             if abs(float(scs.Uijs[i][a][b]) - float(UU[i][a][b])) > 1e-8:
-                return "SymmetryConstraints changed an already consistent tensor at listed site %d" % i, data
+                return "SymmetryConstraints changed an already consistent tensor at listed site %d" % i
+    # custom parameter symbols must denote the same tensors
+    usyms = scs.UparSymbols()
+    custom = ["q%dq" % i for i in range(len(usyms))]
+    if custom:
+        cvals = {c: Fraction(float(v)).limit_denominator(10 ** 12) for c, v in zip(custom, scs.UparValues())}
+        for name, fn in (("UFormulas", scs.UFormulas), ("UFormulasPruned", scs.UFormulasPruned)):
+            try:
+                fms = fn(custom)
+            except Exception as e:
+                return "%s(custom symbols) raised %r" % (name, e)
+            for i, fm in enumerate(fms):
+                for s_ in USYM:
+                    if s_ not in fm:
+                        if name == "UFormulas":
+                            return "%s(custom)[%d] lacks %s" % (name, i, s_)
+                        continue
+                    a, b = UIDX[s_]
+                    try:
+                        val = sc.eval_linear(sc.parse_linear(fm[s_]), cvals)
+                    except (ValueError, KeyError) as e:
+                        return "%s(custom)[%d][%s] = %r cannot be evaluated with the custom symbols (%r)" % (name, i, s_, fm[s_], e)
+                    if abs(float(val) - float(scs.Uijs[i][a][b])) > 1e-5:
+                        return "%s(custom)[%d][%s] = %r gives %r, Uijs has %r" % (name, i, s_, fm[s_], float(val), float(scs.Uijs[i][a][b]))
     gens = sorted(scs.coremap)
     iso_expected = {}
     for g in gens:
@@ -292,7 +325,7 @@ def whole_structure_case(ck, sg, st, SymmetryConstraints, ExpandAsymmetricUnit):
     for g, members in scs.coremap.items():
         for mbr in members:
             if bool(scs.Uisotropy[mbr]) != bool(iso_expected[g]):
-                return "Uisotropy flag of listed site %d differs from its generator's" % mbr, data
+                return "Uisotropy flag of listed site %d differs from its generator's" % mbr
     return None
 
 
@@ -305,8 +338,15 @@ def replay(path):
     from diffpy.structure.symmetryutilities import GeneratorSite
 
     if r.get("stream") == "whole":
-        print("whole-structure case; data:", json.dumps(r.get("data"))[:500])
-        return 1
+        from diffpy.structure.symmetryutilities import ExpandAsymmetricUnit, SymmetryConstraints
+
+        sg = [g for g in sgs.SpaceGroupList if g.number == r["setting"]][0]
+        try:
+            prob = whole_eval(sg, r["data"], SymmetryConstraints, ExpandAsymmetricUnit)
+        except Exception as e:
+            prob = "raised %r" % (e,)
+        print("problem:", prob)
+        return 1 if prob else 0
     sg = [g for g in sgs.SpaceGroupList if g.number == r["setting"]][0]
 
     class CK:
